@@ -728,6 +728,21 @@ func reachingStores(cell *ssa.Alloc, at ssa.Instruction) (stores []*ssa.Store, z
 				}
 			case *ssa.UnOp, *ssa.DebugRef:
 			case *ssa.MakeClosure:
+			case *ssa.FieldAddr:
+				// reading a field of a struct cell (loop variable `key`, then key.username) does not change the cell
+				if fr := x.Referrers(); fr != nil {
+					for _, u := range *fr {
+						switch y := u.(type) {
+						case *ssa.UnOp:
+							if y.Op != token.MUL {
+								onlyClosure = false
+							}
+						case *ssa.DebugRef:
+						default:
+							onlyClosure = false
+						}
+					}
+				}
 			default:
 				onlyClosure = false
 			}
